@@ -52,6 +52,7 @@ let () =
          let n k = nat_of_int (int_of_string k) in
          let c = (match rest with
            | ["put"; w; frags; leaf] -> M.CPutData (field_of w frags leaf)
+           | ["seekw"; w; frags; leaf] -> M.CSeekWrite (field_of w frags leaf)
            | ["puts"; leaf] -> M.CPutScalar (field_of "w" "-" leaf)
            | ["medit"; g] -> M.CMetaEdit (M.MAlter, n g)
            | ["dedit"; g] -> M.CDataEdit (M.MAlter, n g)
